@@ -291,6 +291,9 @@ def NoKey (H : Hooks) (k : HKey) : Prop := ∀ o q, NKey.hkey q = k → cnt H o 
 
 def nnfUnless (b : Bool) : Option Exc := if b then none else some .notifierNotFound
 
+theorem isEmpty_append' {α} (a b : List α) : (a ++ b).isEmpty = (a.isEmpty && b.isEmpty) := by
+  cases a <;> simp [List.isEmpty]
+
 theorem applyOwn_rm_none' (its : List Item) (H : Hooks) (done : List Item) (hw : WF H)
     (h0 : ∀ it ∈ its, cnt H it.1 it.2 = 0) :
     applyOwn true its H done = (H, done, nnfUnless its.isEmpty) := by
@@ -304,7 +307,7 @@ theorem foldRes_unchanged (f : W → Hooks → Res) (items : W → List Item) (H
   | nil => exact ⟨rfl, rfl⟩
   | cons y ys ih =>
     obtain ⟨h1, h2⟩ := hf y (List.mem_cons_self ..)
-    simp only [foldRes, h2, List.flatMap_cons, List.isEmpty_append]
+    simp only [foldRes, h2, List.flatMap_cons, isEmpty_append']
     cases hb : (items y).isEmpty with
     | false => simp [nnfUnless, h1]
     | true =>
@@ -328,7 +331,7 @@ theorem addRemoveCs_nokey (h : Heap) (k : HKey) (ob : Observer) (x : W) (cs : Li
     obtain ⟨h1, h2⟩ := foldRes_unchanged (addRemove h k true true c) (fun y => hookList h k true c y) H ys
       (fun y hy => ih c (List.mem_cons_self ..) true y H hw hn (hall y hy))
     obtain ⟨g1, g2⟩ := ihcs (fun c' hc' => ih c' (List.mem_cons_of_mem _ hc')) hrest
-    simp only [addRemoveCs, hys, h2, hookListCs_cons, okOr, List.isEmpty_append]
+    simp only [addRemoveCs, hys, h2, hookListCs_cons, okOr, isEmpty_append']
     cases hb : (ys.flatMap (fun y => hookList h k true c y)).isEmpty with
     | false => simp [nnfUnless, h1]
     | true => simp only [nnfUnless, if_true, h1, Bool.true_and]; exact ⟨g1, g2⟩
@@ -339,7 +342,7 @@ theorem addRemove_rm_nokey (h : Heap) (k : HKey) : ∀ g : Graph, NoKeySpec h k 
   obtain ⟨hobs, hcs, hex⟩ := (walkOk_node h extra ob cs x).1 hok
   obtain ⟨os, hos⟩ := (isOk_iff _).1 hobs
   rw [addRemove_rm_unfold, hookList_node, ownItems_eq h k ob cs x os hos]
-  simp only [List.isEmpty_append]
+  simp only [isEmpty_append']
   -- every item of this walk carries the key `k`
   have hzU : ∀ it ∈ userItems k os, cnt H it.1 it.2 = 0 := by
     intro it hit
